@@ -23,6 +23,7 @@ def scenarios(tier):
     bounded.append(("T1K9", ["-p", "0", "T=1", "K=9"]))
     # a second team of another size after the first one completed a multiple of 4 uses (two runs in one process)
     bounded += [("T2K4_then_T3K4", ["-p", "1", "T=2", "K=4", "T2=3", "K2=4"]), ("T3K4_then_T2K5", ["-p", "1", "T=3", "K=4", "T2=2", "K2=5"])]  # one worker: every use has exactly one leader, whatever the phase
+    bounded.append(("pp_T2K5", ["-p", "2", "--post-points", "T=2", "K=5"]))  # preemption also right after an atomic that changed something
     sc = [(n, a + ["-j", "8", "--deadline", "900"]) for n, a in bounded]
     sc += [(f"cyclicT{t}", ["--stateful", "-j", "8", f"T={t}", "cyclic=1", "--deadline", "1500"]) for t in cyc]
     return sc
